@@ -1,4 +1,4 @@
-package main
+package c07
 
 // C07 — variable substitution follows the Compose interpolation grammar.
 //
